@@ -1,5 +1,7 @@
 import LinOp.Core.Parse
 import LinOp.C04.Model
+import LinOp.C04.ModelEig
+import LinOp.C04.ModelSelect
 /-! Line-protocol driver for the C04 solve model (exact rationals).
   sel solve <cholOrTri 0/1> <n> <maxChol> <fast 0/1>
   sel invquad <n> <maxChol> <fast> <logprob>
@@ -10,7 +12,15 @@ import LinOp.C04.Model
   kron <n1> <n2> <c> <Ainv> <Binv> <rhs>        krond <n1> <n2> <A> <B>
   left <n> <o> <p> <Ainv> <L> <R>
   woodbury <n> <k> <m> <d> <U> <capInv> <B>      cap <n> <k> <d> <U>
-  bdiag|bint <k> <n> <m> <stacked block inverses (k·n rows, n cols)> <B>  -/
+  bdiag|bint <k> <n> <m> <stacked block inverses (k·n rows, n cols)> <B>
+  (update 4; `sq` = exact rational square root, inputs are chosen so that every radicand is a perfect square)
+  kpconst <n1> <n2> <c> <Q1> <Q2> <e1> <e2> <cst> <rhs>
+  kpkconst <n1> <n2> <c> <Q1> <Q2> <e1> <e2> <d1> <d2> <rhs>            (d1, d2 scalars)
+  kpsymm <n1> <n2> <c> <Q1> <Q2> <e1> <e2> <d1 list> <d2 list> <rhs>
+  sumkron <n1> <n2> <c> <RC> <RD> <Q1> <Q2> <e1> <e2> <rhs>             (inner solve = kpadloConstSolve2 … cst = 1)
+  brepsolve <r> <b> <n> <c> <stacked base inverses (b·n rows)> <stacked rhs (r·b·n rows, c cols)>
+  kronn <c> <sizes n1,n2,…> <stacked factor-solve matrices (Σ n_i rows; row i padded to max n)> <rhs (R rows, c cols)>
+  method <solve|invquad|iql> <class> <n> <maxChol> <fast> <logprob> <precSize> <minPrec> <chol> <triRoot> <capChol>  -/
 open LinOp LinOp.C04 LinOp.Parse
 
 def getM (a : Array (Array Rat)) (n m : Nat) : Mat Rat n m := Mat.ofArrays n m a
@@ -122,5 +132,75 @@ def runBlock (line : String) : Option String :=
     else none
   | _ => none
 
+/-! ### update 4: eigen-structured solves, BatchRepeat, N-factor Kronecker loop, decision function -/
+
+def ratSqrt (q : Rat) : Rat := ((q.num.toNat.sqrt : Nat) : Rat) / ((q.den.sqrt : Nat) : Rat)
+
+def outV {n m : Nat} (v : Vector (Vector Rat m) n) : String := showMat (v.toList.map Vector.toList)
+
+def vecOf (l : List Rat) (n : Nat) : Fin n → Rat := let a := l.toArray; fun i => a[i.1]!
+
+def parseCls : String → Option OpClass
+  | "generic" => some .generic | "addedDiag" => some .addedDiag | "diag" => some .diag | "ident" => some .ident
+  | "tri" => some .tri | "kronTri" => some .kronTri | "chol" => some .chol | "kron" => some .kron
+  | "kpadloConst" => some .kpadloConst | "kpadloKronConst" => some .kpadloKronConst | "kpadloKronDiag" => some .kpadloKronDiag
+  | "kpadloOther" => some .kpadloOther | "sumKron" => some .sumKron | "lrrad" => some .lrrad | "blockDiag" => some .blockDiag
+  | "blockInterleaved" => some .blockInterleaved | "batchRepeat" => some .batchRepeat | _ => none
+
+def parseEntry : String → Option Entry
+  | "solve" => some .solve | "invquad" => some .invQuad | "iql" => some .invQuadLogdet | _ => none
+
+def runNew (line : String) : Option String :=
+  match words line with
+  | ["kpconst", n1, n2, c, q1, q2, e1, e2, cst, r] =>
+    match n1.toNat?, n2.toNat?, c.toNat?, parseMat? q1, parseMat? q2, parseRats? e1, parseRats? e2, parseRat? cst, parseMat? r with
+    | some n1, some n2, some c, some q1, some q2, some e1, some e2, some cst, some r =>
+      some (outV (kpadloConstSolve2V ratSqrt (getM q1 n1 n1) (getM q2 n2 n2) (vecOf e1 n1) (vecOf e2 n2) cst (getM r (n1 * n2) c)))
+    | _, _, _, _, _, _, _, _, _ => some "bad-op"
+  | ["kpkconst", n1, n2, c, q1, q2, e1, e2, d1, d2, r] =>
+    match n1.toNat?, n2.toNat?, c.toNat?, parseMat? q1, parseMat? q2, parseRats? e1, parseRats? e2, parseRat? d1, parseRat? d2, parseMat? r with
+    | some n1, some n2, some c, some q1, some q2, some e1, some e2, some d1, some d2, some r =>
+      some (outV (kpadloKronConstSolve2V (getM q1 n1 n1) (getM q2 n2 n2) (vecOf e1 n1) (vecOf e2 n2) d1 d2 (getM r (n1 * n2) c)))
+    | _, _, _, _, _, _, _, _, _, _ => some "bad-op"
+  | ["kpsymm", n1, n2, c, q1, q2, e1, e2, d1, d2, r] =>
+    match n1.toNat?, n2.toNat?, c.toNat?, parseMat? q1, parseMat? q2, parseRats? e1, parseRats? e2, parseRats? d1, parseRats? d2, parseMat? r with
+    | some n1, some n2, some c, some q1, some q2, some e1, some e2, some d1, some d2, some r =>
+      some (outV (kpadloSymmSolve2V ratSqrt (getM q1 n1 n1) (getM q2 n2 n2) (vecOf e1 n1) (vecOf e2 n2) (vecOf d1 n1) (vecOf d2 n2)
+        (getM r (n1 * n2) c)))
+    | _, _, _, _, _, _, _, _, _, _ => some "bad-op"
+  | ["sumkron", n1, n2, c, rc, rd, q1, q2, e1, e2, r] =>
+    match n1.toNat?, n2.toNat?, c.toNat?, parseMat? rc, parseMat? rd, parseMat? q1, parseMat? q2, parseRats? e1, parseRats? e2, parseMat? r with
+    | some n1, some n2, some c, some rc, some rd, some q1, some q2, some e1, some e2, some r =>
+      some (outV (sumKronSolve2V (getM rc n1 n1) (getM rd n2 n2)
+        (kpadloConstSolve2V ratSqrt (getM q1 n1 n1) (getM q2 n2 n2) (vecOf e1 n1) (vecOf e2 n2) 1) (getM r (n1 * n2) c)))
+    | _, _, _, _, _, _, _, _, _, _ => some "bad-op"
+  | ["brepsolve", r, b, n, c, bi, x] =>
+    match r.toNat?, b.toNat?, n.toNat?, c.toNat?, parseMat? bi, parseMat? x with
+    | some r, some b, some n, some c, some bi, some x =>
+      let binv : Fin b → Mat Rat n n := fun blk i j => (bi[blk.1 * n + i.1]!)[j.1]!
+      let X : Fin (r * b) → Mat Rat n c := fun p i k => (x[p.1 * n + i.1]!)[k.1]!
+      let Y := batchRepeatSolve binv X
+      some (showMat ((List.finRange (r * b)).flatMap fun p => (Y p).toLists))
+    | _, _, _, _, _, _ => some "bad-op"
+  | ["kronn", c, sizes, ms, r] =>
+    match c.toNat?, parseRats? sizes, parseMat? ms, parseMat? r with
+    | some c, some sizes, some ms, some r =>
+      let ns := sizes.map fun q => q.num.toNat
+      let R := ns.foldr (· * ·) 1
+      let offs := ns.foldl (fun (acc : List Nat × Nat) n => (acc.1 ++ [acc.2], acc.2 + n)) ([], 0)
+      let facs : List (Nat × (Nat → Nat → Rat)) := (ns.zip offs.1).map fun (n, off) => (n, fun i j => (ms[off + i]!)[j]!)
+      let y0 : Array Rat := Array.ofFn (n := R * c) fun t => (r[t.1 / c]!)[t.1 % c]!
+      let y := kronLoopN R c facs y0
+      some (showMat ((List.range R).map fun p => (List.range c).map fun k => y.getD (p * c + k) 0))
+    | _, _, _, _ => some "bad-op"
+  | ["method", e, cls, n, mc, fast, lp, ps, mp, ch, tr, cc] =>
+    match parseEntry e, parseCls cls, n.toNat?, mc.toNat?, ps.toNat?, mp.toNat? with
+    | some e, some cls, some n, some mc, some ps, some mp =>
+      some (methodOf e cls n ⟨mc, b01 fast, b01 lp, ps, mp⟩ ⟨b01 ch, b01 tr, b01 cc⟩).name
+    | _, _, _, _, _, _ => some "bad-op"
+  | _ => none
+
 def main : IO Unit := do
-  loop (← IO.getStdin) () (fun _ l => ((), match runBlock l with | some r => r | none => run l))
+  loop (← IO.getStdin) () (fun _ l => ((), match runNew l with
+    | some r => r
+    | none => match runBlock l with | some r => r | none => run l))
